@@ -54,10 +54,15 @@ class AbsEval:
         if isinstance(e, ast.Constant):
             return e.value
         if isinstance(e, ast.Name):
-            return env.get(e.id, UNKNOWN)
+            if e.id in env:
+                return env[e.id]
+            hook = _hook(self.ops, "name")
+            return hook(e.id, env) if hook else UNKNOWN
         if isinstance(e, ast.Await):
             hook = _hook(self.ops, "awaited")
             v = self.eval(e.value, env)
+            if isinstance(v, tuple) and len(v) == 2 and v[0] == "@coro":
+                return v[1]  # awaiting a library coroutine that was evaluated at its call: its return value
             return hook(v, env) if hook else v
         if isinstance(e, ast.NamedExpr):
             v = self.eval(e.value, env)
@@ -298,7 +303,8 @@ class Machine:
                         out.extend((s, e2) for lab, s in node.succ if lab == "e")
                     else:
                         vals = dict(e2.get("@callvals", {}))
-                        vals[id(node.ast)] = oc.env.get("@return")
+                        ret = oc.env.get("@return")
+                        vals[id(node.ast)] = ("@coro", ret) if callee_cfg.unit.kind == "coroutine" else ret
                         e2["@callvals"] = vals
                         out.extend((s, e2) for lab, s in node.succ if lab in ("n",))
                 return out
